@@ -33,6 +33,7 @@ ABS = 1e-12           # ... absolute, degrees
 MAXCELLS = 40000      # the real chunks object allocates one list per cell: keep calls affordable
 MAXREPORT = 12
 MAXGREEDY = 300       # candidate pairs in a recorded call with maxmatch > 0
+MAXGREEDY_QUICK = 120
 
 
 # ---------------------------------------------------------------------------------------------
@@ -153,6 +154,13 @@ class Gen:
             if room > 60:
                 return 0.0
 
+    def inner_edge(self, c, i):
+        """An RA cell boundary of slice i strictly inside the RA range of the first list (rotated frame), so that
+        first-list points put next to it do not change the grid; None if there is none."""
+        pad = 1e-6 * (c.raMax - c.raMin)
+        js = [j for j in range(1, c.nRa[i]) if c.raMin + pad < float(c.raBounds[i][j]) < c.raMax - pad]
+        return self.rng.choice(js) if js else None
+
     def edges(self, L, cs, only=None, dec0=None):
         """Pairs straddling RA and declination edges of the real chunk grid (edges read from chunks, read-only)."""
         rng = self.rng
@@ -188,7 +196,9 @@ class Gen:
                 # the edge, first-list point just inside the edge near the slice boundary of largest |dec|
                 if c.nRa[i] < 2:
                     continue
-                j = rng.randrange(1, c.nRa[i])
+                j = self.inner_edge(c, i)
+                if j is None:
+                    continue
                 e = (float(c.raBounds[i][j]) - c.raOffset) % 360.0
                 frac = rng.choice([1e-9, 1e-6, 1e-4, 1e-3])
                 dq = hi2 - frac * (hi2 - lo2) if abs(hi) > abs(lo) else lo2 + frac * (hi2 - lo2)
@@ -212,10 +222,47 @@ class Gen:
                 if best is None or best[0] >= L * (1 - 1e-8):
                     continue
                 dp = best[1]
+            elif kind == 'ra-reach':
+                # second-list point just inside the true RA reach asin(sin L / cosDecMin) of the edge (the margin the
+                # code must honour whatever the numeric type L is given in)
+                if c.nRa[i] < 2:
+                    continue
+                cd = float(c.cosDecMin(i))
+                if math.sin(math.radians(L)) >= cd:
+                    continue
+                reach = math.degrees(math.asin(math.sin(math.radians(L)) / cd))
+                if not (dmin <= (hi if abs(hi) > abs(lo) else lo) <= dmax):
+                    continue            # the slice boundary of largest |dec| must be reachable by a first-list point
+                j = self.inner_edge(c, i)
+                if j is None:
+                    continue
+                e = (float(c.raBounds[i][j]) - c.raOffset) % 360.0
+                frac = rng.choice([1e-10, 1e-9])
+                dq = hi2 - frac * (hi2 - lo2) if abs(hi) > abs(lo) else lo2 + frac * (hi2 - lo2)
+                side = rng.choice([-1, 1])
+                rq = (e - side * rng.choice([0.0, 1e-10]) * L / math.cos(math.radians(dq))) % 360.0
+                rp = (e + side * reach * (1 - rng.choice([3e-8, 1e-6, 1e-4, 2e-4, 1e-3]))) % 360.0
+                best = None
+                mid, half = dq, L
+                for _ in range(7):
+                    grid = [mid + (step - 20) / 20.0 * half for step in range(41)]
+                    grid = [v for v in grid if abs(v) < 89.95]
+                    if not grid:
+                        break
+                    sv = oracle_sep([rq], [dq], [rp] * len(grid), grid)[0][0]
+                    a = int(np.argmin(sv))
+                    if best is None or float(sv[a]) < best[0]:
+                        best = (float(sv[a]), grid[a])
+                    mid, half = best[1], half / 10.0
+                if best is None or best[0] >= L * (1 - 1e-8):
+                    continue
+                dp = best[1]
             elif kind in ('ra', 'ra-top', 'corner'):
                 if c.nRa[i] < 2:
                     continue
-                j = rng.randrange(1, c.nRa[i])
+                j = self.inner_edge(c, i)
+                if j is None:
+                    continue
                 e = (float(c.raBounds[i][j]) - c.raOffset) % 360.0
                 if kind == 'ra-top':      # at the slice boundary of largest |dec|: the widest RA reach
                     dq = hi2 - rng.choice([1e-9, 1e-4, 0.01]) * (hi2 - lo2) if abs(hi) > abs(lo) else lo2 + rng.choice([1e-9, 1e-4, 0.01]) * (hi2 - lo2)
@@ -368,6 +415,36 @@ class Gen:
                     ra2.append(seam + side * e * L / c0 - side * off)
                     dec2.append(dec0)
         return norm_ra(ra1), dec1, norm_ra(ra2), np.array(dec2), L, cs, ('seamsweep' if full else 'seamsweep-open')
+
+    def intgrid(self, idx, L):
+        """Integer-degree coordinates (so that every coordinate list can be handed over in an integer dtype):
+        across the RA 0/360 seam, next to either pole, all-sky, clusters below RA 256 (uint8), equatorial chains."""
+        rng = self.rng
+        kind = ['seam', 'npole', 'spole', 'allsky', 'allsky-north', 'cluster8', 'chain', 'seam-north'][idx % 8]
+        n1, n2 = rng.randint(2, min(self.nmax, 30)), rng.randint(1, min(self.nmax, 30))
+        Li = max(1, int(L))
+
+        def g(n):
+            if kind in ('seam', 'seam-north'):
+                d0 = rng.randint(0, 60) if kind == 'seam-north' else rng.randint(-60, 60)
+                return [rng.randint(-3 * Li, 3 * Li) % 360 for _ in range(n)], [d0 + rng.randint(0, 2 * Li) for _ in range(n)]
+            if kind in ('npole', 'spole'):
+                sg = 1 if kind == 'npole' else -1
+                return [rng.randrange(360) for _ in range(n)], [sg * (89 - rng.randint(0, 2 * Li)) for _ in range(n)]
+            if kind == 'allsky':
+                return [rng.randrange(360) for _ in range(n)], [rng.randint(-89, 89) for _ in range(n)]
+            if kind == 'allsky-north':
+                return [rng.randrange(360) for _ in range(n)], [rng.randint(0, 89) for _ in range(n)]
+            if kind == 'cluster8':
+                r0, d0 = rng.randint(0, 200), rng.randint(0, 50)
+                return [min(255, r0 + rng.randint(0, 4 * Li)) for _ in range(n)], [d0 + rng.randint(0, 3 * Li) for _ in range(n)]
+            r0 = rng.choice([0, 350, rng.randrange(360)])
+            return [(r0 + rng.randint(0, n) * max(1, Li - 1)) % 360 for _ in range(n)], [rng.choice([0, 0, 1, -1]) for _ in range(n)]
+        ra1, dec1 = g(n1)
+        ra2, dec2 = g(n2)
+        clip = lambda v: [max(-89, min(89, x)) for x in v]
+        return (np.array(ra1, dtype=float), np.array(clip(dec1), dtype=float), np.array(ra2, dtype=float),
+                np.array(clip(dec2), dtype=float), 'intgrid-' + kind)
 
     def polecap(self, L, cs):
         """A few points, one of them close to the north pole: the declination grid is clamped at +90."""
@@ -540,7 +617,7 @@ def make_calls(ctx):
     g = Gen(ctx.seed, ctx.quick)
     rng = g.rng
     drivers = [g.edges, g.edges, g.edges, g.seam, g.polar, g.chain, g.lattice, g.allsky, g.cluster, g.highdec]
-    nsets = 52 if ctx.quick else 420
+    nsets = 44 if ctx.quick else 300
     calls = []
     # anchors: the two mechanisms suspected in DESIGN.md section 6, aimed at directly (maxmatch = 0, default chunk size first)
     anchors = [(1.0, 52.5, None), (3.0, 70.0, None), (0.1, 80.0, 4.0), (10.0, 40.0, 2.0)]
@@ -574,6 +651,39 @@ def make_calls(ctx):
                 calls.append({'set': sid, 'tag': tag + ('+perm' if pm else ''), 'ra1': ra1, 'dec1': dec1, 'ra2': ra2, 'dec2': dec2,
                               'L': L, 'cs': cs, 'k': k, 'perm': pm})
             sid -= 1
+    # numeric type as a dimension: integer-degree sets handed over as float64 and in the integer forms that fit
+    # (rotated by case number), scalars as Python int / numpy integer scalars / 0-d arrays
+    ncase = 0
+    for idx in range(40 if ctx.quick else 160):
+        Li = [1, 2, 3, 5, 8, 10, 17, 20, 30][idx % 9]
+        ra1, dec1, ra2, dec2, tag = g.intgrid(idx, Li)
+        L = float(Li) if idx % 3 else Li + 0.5
+        cs = [None, float(2 * Li + 1), float(4 * Li), float(Li + 1)][(idx // 3) % 4]
+        if est_cells(ra1, dec1, chunk_size(L, cs)) > MAXCELLS:
+            continue
+        base = {'set': sid, 'ra1': ra1, 'dec1': dec1, 'ra2': ra2, 'dec2': dec2, 'L': L, 'cs': cs, 'perm': None}
+        calls.append(dict(base, tag=tag, k=0))
+        fits = [f for f in COORD_FORMS if all(coord_form(a, f) is not None for a in (ra1, dec1, ra2, dec2))]
+        for rep in range(3 if ctx.quick else 4):
+            cf = fits[ncase % len(fits)]
+            which = [(0, 1, 2, 3), (0, 1), (2, 3), (1, 3), (0, 2)][(ncase // len(fits)) % 5]
+            sf = SCALAR_FORMS[ncase % len(SCALAR_FORMS)]
+            forms = {'coords': [cf if j in which else 'float64' for j in range(4)],
+                     'scalars': [sf if rep != 1 else None, sf, SCALAR_FORMS[(ncase + rep) % len(SCALAR_FORMS)]]}
+            calls.append(dict(base, tag=tag + '+typed', k=[0, rng.choice([1, 2]), 0, 3][rep], forms=forms))
+            ncase += 1
+        sid -= 1
+    # the RA reach of the margin with the match length given as a short numpy integer (float16 / float32 inside numpy)
+    for Li, sf in ([(17, 'uint8'), (12, 'uint8'), (30, 'zerodim-uint8'), (5, 'int16'), (20, 'uint16'), (8, 'uint8')] +
+                   ([] if ctx.quick else [(Li, sf) for Li in (3, 11, 15, 19, 23, 27) for sf in ('uint8', 'int16', 'pyint', 'int32')])):
+        cs = float([2 * Li, 4 * Li, Li + 3][Li % 3])
+        ra1, dec1, ra2, dec2, tag = g.edges(float(Li), cs, only='ra-reach', dec0=rng.choice([30.0, -35.0, 45.0]))
+        if est_cells(ra1, dec1, cs) > MAXCELLS:
+            continue
+        base = {'set': sid, 'ra1': ra1, 'dec1': dec1, 'ra2': ra2, 'dec2': dec2, 'L': float(Li), 'cs': cs, 'perm': None, 'k': 0}
+        calls.append(dict(base, tag=tag))
+        calls.append(dict(base, tag=tag + '+typed', forms={'coords': ['float64'] * 4, 'scalars': [sf, sf if cs == int(cs) else None, 'pyint']}))
+        sid -= 1
     # seam sweep: every RA chunk count of the slice holding the data (nRa >= 3 by construction of the grid)
     for target in range(3, 61 if ctx.quick else 401):
         got = g.seamsweep(target)
@@ -621,10 +731,52 @@ def make_calls(ctx):
 
 # ---------------------------------------------------------------------------------------------
 # one real call -> one trace for Trace_SphereMatch
+# numeric forms of the arguments (the same VALUES; the verdict never depends on the form: SphereMatch!CoordForms,
+# ScalarForms).  Coordinate arrays: a numpy integer dtype when all values are integral and fit; scalars: Python int,
+# numpy integer scalars, 0-d arrays.
+COORD_FORMS = ['int64', 'int32', 'int16', 'uint16', 'uint8']
+SCALAR_FORMS = ['pyint', 'int64', 'int32', 'int16', 'uint16', 'uint8', 'zerodim-int64', 'zerodim-uint8', 'zerodim-float']
+
+
+def coord_form(a, form):
+    """Array a (float64, integral values) in the given form, or None if the values do not fit."""
+    if form in (None, 'float64'):
+        return a
+    a = np.asarray(a, dtype=float)
+    if a.size and (np.any(a != np.round(a)) or a.min() < np.iinfo(form).min or a.max() > np.iinfo(form).max):
+        return None
+    return a.astype(form)
+
+
+def scalar_form(v, form):
+    if form in (None, 'float') or v is None:
+        return v
+    if form == 'zerodim-float':
+        return np.array(float(v))
+    if float(v) != int(v):
+        return v
+    v = int(v)
+    if form == 'pyint':
+        return v
+    if form.startswith('zerodim-'):
+        dt = form.split('-')[1]
+        return np.array(v, dtype=dt) if 0 <= v <= np.iinfo(dt).max else v
+    return np.dtype(form).type(v) if np.iinfo(form).min <= v <= np.iinfo(form).max else v
+
+
 def run_real(call):
     """Execute the real spherematch.  The pairs are mapped back through the permutation (if any)."""
     from pydl.pydlutils.spheregroup import spherematch
     ra1, dec1, ra2, dec2 = (np.asarray(call[x], dtype=float) for x in ('ra1', 'dec1', 'ra2', 'dec2'))
+    forms = call.get('forms')
+    if forms:
+        arrs = [coord_form(a, f) for a, f in zip((ra1, dec1, ra2, dec2), forms['coords'])]
+        if any(a is None for a in arrs):
+            return {'exc': 'harness: values do not fit the form %r' % (forms,)}
+        ra1, dec1, ra2, dec2 = arrs
+        Lv, csv, kv = (scalar_form(v, f) for v, f in zip((call['L'], call['cs'], call['k']), forms['scalars']))
+    else:
+        Lv, csv, kv = call['L'], call['cs'], call['k']
     if call['perm'] is not None:
         p1, p2 = (np.asarray(p, dtype=int) for p in call['perm'])
         a1, d1, a2, d2 = ra1[p1], dec1[p1], ra2[p2], dec2[p2]
@@ -632,7 +784,7 @@ def run_real(call):
         p1 = p2 = None
         a1, d1, a2, d2 = ra1, dec1, ra2, dec2
     try:
-        m1, m2, d = spherematch(a1, d1, a2, d2, call['L'], chunksize=call['cs'], maxmatch=call['k'])
+        m1, m2, d = spherematch(a1, d1, a2, d2, Lv, chunksize=csv, maxmatch=kv)
     except Exception as ex:
         return {'exc': '%s: %s' % (type(ex).__name__, str(ex)[:160])}
     m1 = np.asarray(m1)
@@ -660,7 +812,9 @@ def build_trace(call, orc, res, thin=None):
     t = {'n1': n1, 'n2': n2, 'k': call['k'],
          'near': [[i + 1, k + 1] for i, k in orc['near']], 'border': [[i + 1, k + 1] for i, k in orc['border']],
          'rk': rk, 'order': [[i + 1, k + 1] for i, k in orc['order']],
-         'thin': [[i + 1, k + 1] for i, k in (thin or [])]}
+         'thin': [[i + 1, k + 1] for i, k in (thin or [])],
+         'coords': [str(f or 'float64') for f in (call.get('forms') or {}).get('coords', ['float64'] * 4)],
+         'scalars': [str(f or 'float') for f in (call.get('forms') or {}).get('scalars', ['float'] * 3)]}
     if res['exc'] is not None:
         t.update(ret=[], exc=True, dok=True, dsorted=True)
         return t
@@ -789,37 +943,89 @@ def classify_exc(msg):
 
 # ---------------------------------------------------------------------------------------------
 # spec -> code (a): the greedy machine's finished behaviours on the real selection code
-class RankTable:
-    """Distance function handed to the real spherematch in place of gcirc: the ranks of one TLC problem."""
-    RA0, STEP = 180.0, 1e-3
+RANK_L = 30.0          # match length of the selection replay; all its points lie within 6 degrees of each other
+RANK_UNIT = 3.0        # a pair of rank r is 3 r degrees apart, a pair that is not close 60 degrees
 
-    def __init__(self, n1, n2, close):
-        self.n1, self.n2, self.close = n1, n2, close      # close: {(i, j) 1-based: rank}
+
+class RankTable:
+    """Drop-in for gcirc during the selection replay: same signature, any broadcastable argument shapes, all three
+    `units`.  For a (first-list point, second-list point) of the problem, recognised by their coordinate VALUES in
+    either argument order, it returns the separation that realises the problem's rank; for anything else the true
+    formula (the real gcirc).  The points themselves all lie within 6 degrees of each other, far less than the match
+    length, so whatever spatial index the implementation uses has to ask for the separation of every pair."""
+    RA0, STEP = 180.0, 2.0          # integral coordinates: they can be handed over in any integer dtype
+
+    def __init__(self, n1, n2, close, real):
+        self.n1, self.n2, self.close, self.real = n1, n2, close, real      # close: {(i, j) 1-based: rank}
         self.ra1 = self.RA0 + self.STEP * np.arange(n1)
         self.ra2 = self.RA0 + self.STEP * (np.arange(n2) + 0.5)
-        self.calls = 0
+        self.asked = set()
+        self.table = np.full((n1 + 1, n2 + 1), 60.0)
+        for (i, j), r in close.items():
+            self.table[i, j] = RANK_UNIT * r
 
     def __call__(self, ra1, dec1, ra2, dec2, units=2):
-        i = int(round((float(ra1) - self.RA0) / self.STEP)) + 1
-        j = int(round((float(ra2) - self.RA0) / self.STEP - 0.5)) + 1
-        self.calls += 1
-        r = self.close.get((i, j))
-        return (0.1 * r if r is not None else 2.0) * 3600.0
+        true = self.real(ra1, dec1, ra2, dec2, units=units)
+        scale = {0: np.rad2deg(1.0), 1: 15.0, 2: 1.0}[units]
+        a, d1, b, d2 = np.broadcast_arrays(np.asarray(ra1, dtype=float) * scale, np.asarray(dec1, dtype=float) * (scale if units == 0 else 1.0),
+                                           np.asarray(ra2, dtype=float) * scale, np.asarray(dec2, dtype=float) * (scale if units == 0 else 1.0))
+        ka, kb = (a - self.RA0) / self.STEP, (b - self.RA0) / self.STEP
+        ok = (np.abs(d1) < 1e-9) & (np.abs(d2) < 1e-9)
+
+        def index(k, n, half):
+            v = k - (0.5 if half else 0.0)
+            iv = np.round(v)
+            good = (np.abs(v - iv) < 1e-9) & (iv >= 0) & (iv < n)
+            return np.where(good, iv, -1).astype(int) + 1        # 0 = not a point of that list
+        i1, j2 = index(ka, self.n1, False), index(kb, self.n2, True)       # (first list, second list)
+        i2, j1 = index(kb, self.n1, False), index(ka, self.n2, True)       # arguments exchanged
+        fwd = ok & (i1 > 0) & (j2 > 0)
+        bwd = ok & (i2 > 0) & (j1 > 0) & ~fwd
+        ii = np.where(fwd, i1, np.where(bwd, i2, 0))
+        jj = np.where(fwd, j2, np.where(bwd, j1, 0))
+        for x, y in zip(ii[ii > 0].ravel().tolist(), jj[ii > 0].ravel().tolist()):
+            self.asked.add((x, y))
+        deg = self.table[ii, jj]
+        scripted = np.deg2rad(deg) if units == 0 else deg * 3600.0
+        out = np.where(ii > 0, scripted, true)
+        return out if out.ndim else out[()]
 
 
-def run_ranked(n1, n2, close, k):
+def in_harness(tb):
+    """Does the traceback pass through this file (an exception of the harness's own stand-in / hand-built object)?"""
+    while tb is not None:
+        if os.path.abspath(tb.tb_frame.f_code.co_filename) == os.path.abspath(__file__) and \
+                tb.tb_frame.f_code.co_name not in ('run_ranked', 'run_hash', 'run_real'):
+            return True
+        tb = tb.tb_next
+    return False
+
+
+def run_ranked(n1, n2, close, k, form=0):
+    """form: case number; selects the numeric form of the coordinate lists and of matchlength / chunksize / maxmatch
+    (0 = float64 arrays, Python float / int scalars)."""
     import pydl.pydlutils.spheregroup as sg
-    tab = RankTable(n1, n2, close)
     saved = sg.gcirc
+    tab = RankTable(n1, n2, close, saved)
     sg.gcirc = tab
+    cf = ([None] + COORD_FORMS)[form % (len(COORD_FORMS) + 1)]
+    sf = ([None] + SCALAR_FORMS)[(form // 2) % (len(SCALAR_FORMS) + 1)]
+    which = [(0, 1, 2, 3), (0, 1), (2, 3), (1, 3)][(form // 6) % 4]
+    arrs = [coord_form(a, cf if j in which else None) for j, a in enumerate((tab.ra1, np.zeros(n1), tab.ra2, np.zeros(n2)))]
     try:
-        m1, m2, d = sg.spherematch(tab.ra1, np.zeros(n1), tab.ra2, np.zeros(n2), 1.0, maxmatch=k)
+        m1, m2, d = sg.spherematch(arrs[0], arrs[1], arrs[2], arrs[3], scalar_form(RANK_L, sf),
+                                   chunksize=scalar_form(120.0, sf) if form % 3 else None,
+                                   maxmatch=scalar_form(k, sf if sf != 'zerodim-float' else None))
     except Exception as ex:
+        if in_harness(ex.__traceback__):
+            raise core.MachineryError('the stand-in for gcirc failed (%s: %s): not evidence about the property' % (type(ex).__name__, ex))
         return {'exc': '%s: %s' % (type(ex).__name__, ex)}
     finally:
         sg.gcirc = saved
-    if tab.calls != n1 * n2:
-        return {'exc': 'harness: %d of %d pairs evaluated (points not in one cell)' % (tab.calls, n1 * n2)}
+    if len(tab.asked) != n1 * n2:
+        # the implementation did not obtain every separation through spheregroup.gcirc: the scripted ranks were not (all)
+        # seen, so this case says nothing - neither a violation nor a pass (the recorded direction judges the real geometry)
+        return {'exc': None, 'uncontrolled': '%d of %d pairs' % (len(tab.asked), n1 * n2)}
     out = tuple((int(a) + 1, int(b) + 1) for a, b in zip(m1, m2))
     return {'exc': None, 'out': out, 'dist': [float(x) for x in d]}
 
@@ -838,17 +1044,21 @@ def replay_greedy(ctx, cfg):
         groups.setdefault(key, set()).add(tuple(tuple(p) for p in st['out']))
     if not groups:
         raise core.MachineryError('MC_SphereMatch (%s) produced no finished behaviour' % cfg)
-    nbad = 0
+    nbad = nrep = nskip = 0
     for key in sorted(groups):
         n1, n2, k, rank, border, skipped = key
         close = {p: rk for p, rk in rank if p not in skipped}
-        obs = run_ranked(n1, n2, close, k)
+        nrep += 1
+        obs = run_ranked(n1, n2, close, k, form=nrep)
+        if obs.get('uncontrolled'):
+            nskip += 1
+            continue
         ctx.evaluated(1, 'greedy-replay')
         ctx.validated()
         if len(close) >= 2:
             ctx.nontriv(('greedy', key))
         good = obs['exc'] is None and obs['out'] in groups[key] and \
-            all(abs(d - 0.1 * close[p]) < 1e-9 for p, d in zip(obs['out'], obs['dist']))
+            all(abs(d - RANK_UNIT * close[p]) < 1e-9 for p, d in zip(obs['out'], obs['dist']))
         if len(ctx.cov['samples']) < 2 and len(close) >= 3:
             ctx.sample({'problem': {'n1': n1, 'n2': n2, 'k': k, 'rank': [[list(p), rk] for p, rk in rank], 'skipped': [list(p) for p in skipped]},
                         'tlc_outputs': sorted([list(map(list, o)) for o in groups[key]])[:4], 'observed': obs})
@@ -856,19 +1066,46 @@ def replay_greedy(ctx, cfg):
             nbad += 1
             if nbad <= MAXREPORT:
                 if obs['exc'] is None and obs['out'] in groups[key]:
-                    how = 'pairs %s with distances %s (x 0.1 = ranks expected)' % (obs['out'], obs['dist'])
+                    how = 'pairs %s with distances %s (%g x rank expected)' % (obs['out'], obs['dist'], RANK_UNIT)
                 else:
                     how = '%s, the machine produces %s' % (obs.get('out', obs['exc']), sorted(groups[key])[:3])
                 ctx.violation({'what': 'selection: n1=%d n2=%d maxmatch=%d ranks=%s skipped=%s: real spherematch returned %s'
                                        % (n1, n2, k, dict(rank), list(skipped), how),
                                'kind': 'greedy', 'n1': n1, 'n2': n2, 'k': k, 'rank': [[list(p), rk] for p, rk in rank],
-                               'skipped': [list(p) for p in skipped], 'expected_any_of': sorted([list(map(list, o)) for o in groups[key]]),
+                               'skipped': [list(p) for p in skipped], 'form': nrep, 'expected_any_of': sorted([list(map(list, o)) for o in groups[key]]),
                                'observed': obs})
+    if nskip:
+        ctx.cov['parts']['greedy-replay-uncontrolled'] = nskip
+        ctx.assumptions.append('selection replay: in %d of %d cases the implementation did not ask spheregroup.gcirc for every pair, '
+                               'so the scripted ranks were not in force; those cases were not judged' % (nskip, len(groups)))
+        print('note: selection replay not in control of the separations in %d of %d cases' % (nskip, len(groups)), flush=True)
     return len(groups)
 
 
 # ---------------------------------------------------------------------------------------------
 # spec -> code (b): the hash design model on the real chunks.assign / getbounds / get
+# what an object built by the public constructor consists of (instance attributes / methods the lattice replay relies on)
+CHUNK_ATTRS = {'minSize', 'nDec', 'decBounds', 'raRange', 'raOffset', 'raMin', 'raMax', 'raBounds', 'nRa', 'chunkList', 'nChunkMax'}
+
+
+def lattice_supported():
+    """The lattice replay lays a real chunks object over a flat lattice by setting its attributes.  That is only
+    meaningful if an object built by the public constructor consists of exactly the attributes set here (no cached
+    per-slice quantities) and has the cosDecMin(i) method that is made flat.  Returns '' or the reason why not."""
+    from pydl.pydlutils.spheregroup import chunks
+    try:
+        c0 = chunks(np.array([10.0, 20.0, 15.0]), np.array([0.0, 1.0, 0.5]), 4.0)
+    except Exception as ex:
+        return 'constructor failed on plain data: %s' % ex
+    extra = set(vars(c0)) - CHUNK_ATTRS
+    missing = CHUNK_ATTRS - set(vars(c0))
+    if extra or missing:
+        return 'constructor-built object has other attributes (extra %s, missing %s)' % (sorted(extra), sorted(missing))
+    if not all(callable(getattr(c0, m, None)) for m in ('cosDecMin', 'assign', 'get', 'getbounds')):
+        return 'methods cosDecMin / assign / get / getbounds not all present'
+    return ''
+
+
 def lattice_chunks(g):
     """A real chunks object laid over the model's lattice: ring = 0..360 in nc cells, flat (cos = 1)."""
     from pydl.pydlutils.spheregroup import chunks
@@ -896,7 +1133,12 @@ def run_hash(g, p, points):
     c, u = lattice_chunks(g)
     try:
         c.assign(np.array([p[0] * u]), np.array([p[1] * u]), g['m'] * u)
+    except AttributeError as ex:
+        # an attribute the hand-built object does not have: a failure of the construction, not of the property
+        raise core.MachineryError('lattice replay: hand-built chunks object is incomplete (%s)' % ex)
     except Exception as ex:
+        if in_harness(ex.__traceback__):
+            raise core.MachineryError('lattice replay: harness stand-in failed (%s: %s)' % (type(ex).__name__, ex))
         return {'exc': '%s: %s' % (type(ex).__name__, ex)}
     count = {}
     for b in range(c.nDec):
@@ -916,6 +1158,14 @@ def run_hash(g, p, points):
 
 
 def replay_hash(ctx, cfg):
+    why_not = lattice_supported()
+    if why_not:
+        # spec-level laws are still checked; the binding of the hash to the code is then the aimed drivers only
+        ctx.tlc('MC_SphereMatch.tla', cfg, timeout=900)
+        ctx.cov['parts']['hash-replay-skipped'] = why_not
+        ctx.assumptions.append('hash lattice replay NOT run on this tree: ' + why_not)
+        print('note: hash lattice replay skipped: ' + why_not, flush=True)
+        return 0, 0
     r = ctx.tlc('MC_SphereMatch.tla', cfg, dump=True, timeout=900)
     n = nrun = nbad = 0
     for st in core.iter_states(r):
@@ -970,9 +1220,12 @@ def negative_control(ctx, cfg, inv):
 
 # ---------------------------------------------------------------------------------------------
 def describe(call):
-    return 'spherematch(n1=%d, n2=%d, L=%.9g, chunksize=%s, maxmatch=%d) [%s, set %d]' % (
+    f = call.get('forms')
+    return 'spherematch(n1=%d, n2=%d, L=%.9g, chunksize=%s, maxmatch=%d%s) [%s, set %d]' % (
         len(call['ra1']), len(call['ra2']), call['L'], ('%.9g' % call['cs']) if call['cs'] is not None else 'None',
-        call['k'], call['tag'], call['set'])
+        call['k'], (', forms: ra1/dec1/ra2/dec2 %s, L/chunksize/maxmatch %s' % ('/'.join(str(x) for x in f['coords']),
+                                                                             '/'.join(str(x) for x in f['scalars']))) if f else '',
+        call['tag'], call['set'])
 
 
 def case_of(call, why, extra=None):
@@ -980,7 +1233,7 @@ def case_of(call, why, extra=None):
          'ra1': [float(v) for v in call['ra1']], 'dec1': [float(v) for v in call['dec1']],
          'ra2': [float(v) for v in call['ra2']], 'dec2': [float(v) for v in call['dec2']],
          'L': call['L'], 'cs': call['cs'], 'k': call['k'], 'perm': [list(map(int, p)) for p in call['perm']] if call['perm'] else None,
-         'tag': call['tag'], 'set': call['set']}
+         'tag': call['tag'], 'set': call['set'], 'forms': call.get('forms')}
     if extra:
         c.update(extra)
     return c
@@ -995,10 +1248,14 @@ def minimal_pair(call, orc, res):
     if len(ra1) > 80:
         return None
 
+    forms = call.get('forms') or {'coords': [None] * 4, 'scalars': [None] * 3}
+    Lv, csv = scalar_form(call['L'], forms['scalars'][0]), scalar_form(call['cs'], forms['scalars'][1])
+
     def missed(sel, k):
+        arrs = [coord_form(a, f) for a, f in zip((ra1[sel], dec1[sel], np.array([call['ra2'][k]]), np.array([call['dec2'][k]])),
+                                                 forms['coords'])]
         try:
-            m1, m2, d = spherematch(ra1[sel], dec1[sel], np.array([call['ra2'][k]]), np.array([call['dec2'][k]]),
-                                    call['L'], chunksize=call['cs'], maxmatch=0)
+            m1, m2, d = spherematch(arrs[0], arrs[1], arrs[2], arrs[3], Lv, chunksize=csv, maxmatch=0)
         except Exception:
             return False
         return not any(int(x) == 0 for x in m1)
@@ -1016,13 +1273,83 @@ def minimal_pair(call, orc, res):
                 if missed(trial, k):
                     sel = trial
                     changed = True
-        return 'spherematch(np.array(%r), np.array(%r), np.array(%r), np.array(%r), %r, chunksize=%r, maxmatch=0) misses (0, 0), separation %.12g' % (
-            ra1[sel].tolist(), dec1[sel].tolist(), [float(call['ra2'][k])], [float(call['dec2'][k])], call['L'], call['cs'],
+        return 'spherematch(np.array(%r), np.array(%r), np.array(%r), np.array(%r), %r, chunksize=%r, maxmatch=0)%s misses (0, 0), separation %.12g' % (
+            ra1[sel].tolist(), dec1[sel].tolist(), [float(call['ra2'][k])], [float(call['dec2'][k])], Lv, csv,
+            (' [coordinate dtypes %s]' % '/'.join(str(f or 'float64') for f in forms['coords'])) if call.get('forms') else '',
             float(orc['s1'][i, k]))
     return None
 
 
-def check_calls(ctx, calls, label):
+def falsify(t, m):
+    """One observed field of an accepted trace falsified beyond tolerance (method m); None if not applicable."""
+    t = {k: (list(v) if isinstance(v, list) else v) for k, v in t.items() if not k.startswith('_')}
+    ret = [list(p) for p in t['ret']]
+    near = {tuple(p) for p in t['near']}
+    cand = near | {tuple(p) for p in t['border']}
+    rank = lambda p: t['rk'][str(p[0])][str(p[1])]
+    if m == 0:          # a returned pair below the match length dropped (maxmatch = 0) / everything dropped (maxmatch > 0)
+        if t['k'] == 0:
+            idx = [a for a, p in enumerate(ret) if tuple(p) in near]
+            if not idx:
+                return None
+            del ret[idx[len(idx) // 2]]
+        else:
+            if not near or not ret:
+                return None
+            ret = []
+    elif m == 1:        # a pair above the match length added
+        far = [(i, j) for i in range(1, t['n1'] + 1) for j in range(1, t['n2'] + 1) if (i, j) not in cand][:1]
+        if not far:
+            return None
+        ret.append(list(far[0]))
+    elif m == 2:        # a pair returned twice
+        if not ret:
+            return None
+        ret.insert(len(ret) // 2, list(ret[len(ret) // 2]))
+    elif m == 3:        # two pairs of different separation exchanged
+        idx = [a for a in range(len(ret) - 1) if tuple(ret[a]) in cand and tuple(ret[a + 1]) in cand and rank(ret[a]) != rank(ret[a + 1])]
+        if not idx:
+            return None
+        a = idx[len(idx) // 2]
+        ret[a], ret[a + 1] = ret[a + 1], ret[a]
+    elif m == 4:        # a returned distance that is not the separation of its pair
+        if not ret:
+            return None
+        t['dok'] = False
+    else:               # the distance array not sorted
+        if len(ret) < 2:
+            return None
+        t['dsorted'] = False
+    t['ret'] = ret
+    return t
+
+
+def binding_selftest(ctx, traces, bad):
+    """Non-vacuity of Trace_SphereMatch: accepted traces with ONE observed field falsified must all be rejected."""
+    good = [t for a, t in enumerate(traces) if a not in bad and not t['exc'] and len(t['order']) <= 150]
+    good = [t for t in good if t['k'] == 0][:150] + [t for t in good if t['k'] > 0][:150]
+    good = [good[(7 * a) % len(good)] for a in range(len(good))] if len(good) % 7 else good
+    fals, kinds = [], {}
+    for a, t in enumerate(good):
+        if len(fals) >= 240:
+            break
+        f = falsify(t, a % 6)
+        if f is not None:
+            fals.append(f)
+            kinds[a % 6] = kinds.get(a % 6, 0) + 1
+    if len(fals) < 20:
+        raise core.MachineryError('binding self-test of Trace_SphereMatch: only %d traces to falsify' % len(fals))
+    rej = judge(ctx, fals, 'Trace_SphereMatch self-test')
+    ctx.cov['parts']['selftest_recorded_calls'] = {'corrupted_records': len(fals), 'rejected': len(rej),
+                                                   'by_kind(drop,extra,twice,order,distance,unsorted)': [kinds.get(m, 0) for m in range(6)],
+                                                   'maxmatch>0': sum(1 for f in fals if f['k'] > 0)}
+    missed = [a for a in range(len(fals)) if a not in rej]
+    if missed:
+        raise core.MachineryError('binding self-test of Trace_SphereMatch: %d of %d falsified traces were accepted, e.g. %r'
+                                  % (len(missed), len(fals), {k: v for k, v in fals[missed[0]].items() if k in ('n1', 'n2', 'k', 'ret', 'near', 'border', 'dok', 'dsorted')}))
+
+
+def check_calls(ctx, calls, label, selftest=False):
     """Run the real calls, let TLC judge them, report the rejected ones."""
     traces, meta = [], []
     orc_cache = {}
@@ -1031,7 +1358,7 @@ def check_calls(ctx, calls, label):
         if key not in orc_cache:
             orc_cache[key] = oracle(call['ra1'], call['dec1'], call['ra2'], call['dec2'], call['L'])
         orc = orc_cache[key]
-        if call['k'] > 0 and len(orc['order']) > MAXGREEDY:
+        if call['k'] > 0 and len(orc['order']) > (MAXGREEDY_QUICK if ctx.quick else MAXGREEDY):
             continue        # the machine replays one candidate pair per step: keep traces of maxmatch > 0 affordable
         res = run_real(call)
         t = build_trace(call, orc, res)
@@ -1070,6 +1397,8 @@ def check_calls(ctx, calls, label):
                         finding = 'D-C04-2'
                         extra['thin'] = [list(p) for p in thin]
         ctx.violation(case_of(call, why, extra), finding=finding)
+    if selftest:
+        binding_selftest(ctx, traces, bad)
     return len(bad)
 
 
@@ -1086,14 +1415,19 @@ def run(ctx):
         'model_checking covers the selection logic given the relation (all relations on <= 3 x 3 points, <= 5 candidate pairs, '
         'ranks with ties, maxmatch 0..2(3)) and the flat-lattice hash design; the geometric completeness of the hash on the '
         'sphere is explored by aimed and random point sets (sampled, not exhaustive)',
-        'greedy replay: gcirc is replaced by the rank table of the problem (all points in one chunk cell)',
+        'greedy replay: spheregroup.gcirc is replaced by a drop-in (any broadcast shapes, true formula for other points) that gives the pairs of the problem the separations of their ranks; all points lie within 6 deg, match length 30 deg; if the implementation does not consult it for every pair the run is a machinery error, not a violation',
         'hash replay: lattice cases with margin * 360/ring <= 80 deg only (a flat margin >= 90 deg has no counterpart on the sphere)',
         'calls whose chunk grid would exceed %d cells are not made (the real chunks object allocates every cell)' % MAXCELLS,
         'the hash design model is exact integer arithmetic: it cannot show floating-point rounding of the cell boundaries '
         '(e.g. a last RA boundary of 359.99999999999994); that is covered on the real code by the seam sweep, which realises '
         'every RA chunk count 3..60 (quick) / 3..400 (thorough) of an all-round slice (read back from the real chunks object) '
         'with pairs just across RA = 0; chunk counts 1 (polar slice) and 2 (never produced by chunks.__init__) are not swept',
-        'calls with maxmatch > 0 are recorded only when the oracle finds <= %d candidate pairs (one machine step per pair)' % MAXGREEDY]
+        'numeric type: integer-degree point sets (seam, both poles, all-sky, RA < 256 clusters, equatorial chains) are '
+        'submitted as float64 and as int64/int32/int16/uint16/uint8 lists (as the values fit; all four lists, one list, or '
+        'declinations only), matchlength/chunksize/maxmatch as Python int, numpy integer scalars and 0-d arrays; the TLC '
+        'selection cases are replayed on integral coordinates in the same rotating forms; unsigned lists cannot hold '
+        'negative declinations, so southern sets are covered by the signed dtypes only',
+        'calls with maxmatch > 0 are recorded only when the oracle finds <= %d (quick: %d) candidate pairs (one machine step per pair)' % (MAXGREEDY, MAXGREEDY_QUICK)]
     # ---- spec level + spec -> code
     replay_greedy(ctx, 'MC_SphereMatch_quick.cfg' if ctx.quick else 'MC_SphereMatch_cases_thorough.cfg')
     if not ctx.quick:
@@ -1104,7 +1438,7 @@ def run(ctx):
     negative_control(ctx, 'MC_SphereMatch_hash_onestep.cfg', 'C04_HashComplete')
     # ---- code -> spec
     calls = make_calls(ctx)
-    check_calls(ctx, calls, 'Trace_SphereMatch')
+    check_calls(ctx, calls, 'Trace_SphereMatch', selftest=True)
     if calls:
         c = calls[0]
         ctx.sample({'recorded_call': describe(c)})
@@ -1121,8 +1455,10 @@ def replay(ctx, case):
     kind = case.get('kind')
     if kind == 'greedy':
         close = {tuple(p): rk for p, rk in case['rank'] if list(p) not in case['skipped']}
-        obs = run_ranked(case['n1'], case['n2'], close, case['k'])
+        obs = run_ranked(case['n1'], case['n2'], close, case['k'], form=case.get('form', 0))
         print('replayed selection problem; observed:', obs, '\nexpected any of:', case['expected_any_of'])
+        if obs.get('uncontrolled'):
+            return
         if obs['exc'] is not None or [list(p) for p in obs['out']] not in case['expected_any_of']:
             ctx.violation(case)
         return
@@ -1138,6 +1474,6 @@ def replay(ctx, case):
         return
     call = {'ra1': np.array(case['ra1']), 'dec1': np.array(case['dec1']), 'ra2': np.array(case['ra2']), 'dec2': np.array(case['dec2']),
             'L': case['L'], 'cs': case['cs'], 'k': case['k'], 'perm': tuple(case['perm']) if case.get('perm') else None,
-            'tag': case.get('tag', 'replay'), 'set': case.get('set', 0)}
+            'tag': case.get('tag', 'replay'), 'set': case.get('set', 0), 'forms': case.get('forms')}
     n = check_calls(ctx, [call], 'Trace_SphereMatch-replay')
     print('replayed %s: %s' % (describe(call), 'rejected by the specification' if n else 'accepted'))
